@@ -43,6 +43,8 @@ func c06(c *Ctx) {
 	// SingleFlight's doing — the flight rules of C07 are part of this property's check as well (a call object
 	// recycled while a late joiner still reads it hands a reader another key's row)
 	runShared(c, "C07.", "C06.R14·C07.", c07)
+	// R16 (round 8): a failed invalidation is retried by the cleaner's timing wheel — its rules (C12) are part of this check
+	runShared(c, "C12.", "C06.R16·C12.", c12)
 }
 
 // isCeilSeconds: s is int(math.Ceil(X.Seconds())); returns X.
